@@ -411,11 +411,11 @@ def cases(rng, tier):
     yield from small_scope(3 if thorough else 2)
     r2 = rng.fork("scope")
     alpha = scope_alphabet()
-    for _ in range(20000 if thorough else 1200):
+    for _ in range(8000 if thorough else 1200):
         yield " ".join(r2.choice(alpha) for _ in range(r2.range(3 if not thorough else 4, 7)))
-    nvalid = 12000 if thorough else 1500
-    nbound = 3000 if thorough else 400
-    nmut = 4000 if thorough else 500
+    nvalid = 6000 if thorough else 1500
+    nbound = 1500 if thorough else 400
+    nmut = 2000 if thorough else 500
     rv, rb, rm = rng.fork("valid"), rng.fork("boundary"), rng.fork("mutation")
     recent = []
     for i in range(nvalid):
